@@ -353,6 +353,17 @@ func (p c09) child(c *fw.Ctx, t c09Tpl, depth, durMs int, dir string) (kind, det
 	return "", "", guard
 }
 
+// c09Sig names a child-process violation; unbounded recursion at the default depth limit (a Go stack of hundreds of
+// megabytes) is marked ":deepstack" because its unwinding time under a low memory limit is the subject of an open finding.
+func c09Sig(kind string, t c09Tpl, depth int) string {
+	parts := strings.SplitN(t.name+"-", "-", 3)
+	sig := "child:" + kind + ":" + parts[0] + "-" + parts[1]
+	if t.want == "depth" && depth == 0 {
+		sig += ":deepstack"
+	}
+	return sig
+}
+
 func clipTail(s string, n int) string {
 	if len(s) > n {
 		return "…" + s[len(s)-n:]
@@ -414,7 +425,7 @@ func (p c09) RunBatch(c *fw.Ctx) {
 					c.Count("unreproduced_"+kind, 1)
 					continue
 				}
-				c.Violate(kind, "child:"+kind+":"+strings.SplitN(t.name, "-", 3)[0]+"-"+strings.SplitN(t.name+"-", "-", 3)[1], cs, t.name+": "+d2+" (first run: "+detail+")")
+				c.Violate(kind, c09Sig(kind, t, d), cs, t.name+": "+d2+" (first run: "+detail+")")
 			}
 		}
 	}
@@ -436,7 +447,7 @@ func (p c09) ReplayCase(c *fw.Ctx, input json.RawMessage) {
 		if t.name == cs.Src {
 			c.Eval(1)
 			if kind, detail, _ := p.child(c, t, cs.Depth, cs.DurMs, dir); kind != "" {
-				c.Violate(kind, "child:"+kind+":"+strings.SplitN(t.name, "-", 3)[0]+"-"+strings.SplitN(t.name+"-", "-", 3)[1], cs, t.name+": "+detail)
+				c.Violate(kind, c09Sig(kind, t, cs.Depth), cs, t.name+": "+detail)
 			}
 		}
 	}
